@@ -175,7 +175,7 @@ Definition EMPTY_MESSAGE_LEN : N := 2.
 Fixpoint sum (l : list N) : N := match l with [] => 0 | x :: t => x + sum t end.
 
 Section Batching.
-  Variable A : Type.             (* a queued entry: a block, a presence, a want *)
+  Variable A : Type.             (* a queued entry: a block, a presence *)
   Variable dlen : A -> N.        (* length of its data (blocks; 0 otherwise) *)
   Variable elen : A -> N.        (* its encoded size as an entry of the message *)
   Variable mlen : N -> N.        (* encoded length of a message whose entries take that many bytes *)
@@ -233,15 +233,6 @@ Section Batching.
 
   Definition sent_batches (l : list A) : list (list A) := filter sendable (all_batches l).
 
-  (* the `loop { .. if cids.is_empty() { break } }` of send_request: a message is built and sent
-     in every round, the first one included, even from an empty batch *)
-  Fixpoint request_rounds (fuel : nat) (l : list A) : list (list A) :=
-    match fuel with
-    | O => []
-    | S f =>
-        let '(b, r) := take_batch 0 0 (drop_unfit l) in
-        b :: match r with [] => [] | _ => request_rounds f r end
-    end.
 End Batching.
 
 (* blocks_message / presences_message: the empty wantlist, then the entries *)
@@ -504,14 +495,9 @@ Definition want_elen (cidlen wtype : N) : N :=
 Definition sw_elen (cw : cid * want_type) : N :=
   want_elen (N.of_nat (length (cid_to_bytes (fst cw)))) (want_code (snd cw)).
 
-(* encoded length of a message send_request builds: only the wantlist field *)
+(* encoded length of the message send_request builds: only the wantlist field, all wants in it *)
 Definition request_len (cids : list (cid * want_type)) : N :=
   message_len (cid * want_type) sw_elen req_mlen cids.
-
-(* the wants of send_request(cids) as they go out, message by message (extract_next_want_batch:
-   the batching of blocks without a data limit, the message being the wrapped wantlist) *)
-Definition send_request_msgs (mm : N) (cids : list (cid * want_type)) : list (list (cid * want_type)) :=
-  request_rounds (cid * want_type) (fun _ => 0) sw_elen req_mlen 0 mm (S (length cids)) cids.
 
 (* ------------------------------------------------------------------ the event loop: actions and substreams *)
 
@@ -538,10 +524,11 @@ Definition omsg_len (m : omsg) : N :=
 (* a frame of the unsigned-varint codec: length prefix + message *)
 Definition frame_len (m : omsg) : N := vlen (omsg_len m) + omsg_len m.
 
-(* send_request writes the want messages, send_response the presence messages then the block messages *)
+(* send_request writes one message with all wants (whatever its size), send_response the presence
+   messages then the block messages *)
 Definition action_msgs (mb mm : N) (a : action) : list omsg :=
   match a with
-  | ARequest cids => map ORequest (send_request_msgs mm cids)
+  | ARequest cids => [ORequest cids]
   | AResponse ps bs =>
       map OPresences (send_response_presences mm ps) ++ map OBlocks (send_response_blocks mb mm bs)
   end.
